@@ -166,10 +166,15 @@ def gen_case(rng, n_ops, topics, n_cons, reentrant=True, force_ok=True):
                         continue
                     higher = [T2 for T2 in topics if rank[T2] > rank[T]] if force_ok else topics
                     if higher and rng.random() < (0.5 if level == 0 else 0.3):
-                        nxt += 1
-                        T2 = rng.choice(higher)
-                        handlers.append([k, v, [[T2, nxt]]])
-                        origin[nxt] = T2
+                        # one reaction may publish a BURST: several values, to the same and to different topics
+                        # (a scheduler answers one Output with several Inputs; a relay forwards a batch)
+                        pubs = []
+                        for _b in range(rng.choice((1, 1, 2, 3))):
+                            nxt += 1
+                            T2 = pubs[-1][0] if pubs and rng.random() < 0.6 else rng.choice(higher)
+                            pubs.append([T2, nxt])
+                            origin[nxt] = T2
+                        handlers.append([k, v, pubs])
     return ops, handlers, rank
 
 
@@ -198,6 +203,9 @@ def run(tier, seed, drv):
         cases.append((ops, [], rank2, 2))
         # consumer 0 forwards everything it gets on a (values 1..depth) to b
         cases.append((ops, [[0, v, [["b", 100 + v]]] for v in range(1, depth + 1)], rank2, 2))
+        # ... and forwards each as a burst of two values to b
+        if len(ops) <= 3:
+            cases.append((ops, [[0, v, [["b", 100 + v], ["b", 200 + v]]] for v in range(1, depth + 1)], rank2, 2))
     n_exh = len(cases)
     for i in range(300 if tier == "quick" else 3000):
         topics = ["t0", "t1", "t2"][:rng.randrange(2, 4)]
@@ -259,8 +267,8 @@ def run(tier, seed, drv):
                 res.violate(V("topic-collision", f"{seen[t]} and {(n, kind)} share topic {t!r}", site="topic_naming"), {"names": [seen[t][0], n]})
             seen[t] = (n, kind)
     res.rule = (f"all operation sequences of length <= {depth} over subscribe(k,[a]|[b]|[a,b]) / produce(a|b) with 2 consumers, each without handlers and "
-                f"with consumer 0 forwarding a->b re-entrantly ({n_exh} cases), plus seeded histories over <=3 topics x <=3 consumers with two-level "
-                "re-entrant handlers (15% deliberately outside the hypotheses: re-subscription / non-stratified - run for robustness, not compared); "
+                f"with consumer 0 forwarding a->b re-entrantly - one value, and (length <= 3) a burst of two values per reaction - ({n_exh} cases), plus seeded histories over <=3 topics x <=3 consumers with two-level "
+                "re-entrant handlers whose reactions publish bursts of 1-3 values to the same / different topics (15% deliberately outside the hypotheses: re-subscription / non-stratified - run for robustness, not compared); "
                 "plus input/output topics of 32 names checked pairwise distinct; non-trivial = at least one subscribe and one produce")
     return res
 
